@@ -30,6 +30,8 @@ func dispatch(cmd string, args []string) int {
 		return cmdConc(cmd, args)
 	case "C12", "C13":
 		return cmdDkg(cmd, args)
+	case "C19":
+		return cmdTLS(args)
 	case "C20":
 		return cmdWire(args)
 	case "C14":
